@@ -158,6 +158,11 @@ func baseDocs(t reflect.Type) [][]byte {
 				alt := string(d[:m[2]]) + v + string(d[m[3]:])
 				add([]byte(alt))
 			}
+			// the member's value replaced by null (promoted fields behind nil embedded pointers are allocated by a
+			// key alone; null leaves other kinds untouched)
+			if val := memberValue(d, m[1]); val != "" && val != "null" {
+				add([]byte(string(d[:m[1]]) + "null" + string(d[m[1]+len(val):])))
+			}
 			// the same member again under a variant name, after the original
 			if d[len(d)-1] == '}' {
 				val := memberValue(d, m[1])
